@@ -34,3 +34,35 @@ Example C18_published_vectors :
   vec "rnbqkbnr/p1pppppp/8/8/PpP4P/8/1P1PPPP1/RNBQKBNR b KQkq c3 0 3" 0x3c8123ea7b067637 &&
   vec "rnbqkbnr/p1pppppp/8/8/P6P/R1p5/1P1PPPP1/1NBQKBNR b Kkq - 0 4" 0x5c3f9b829b279560 = true.
 Proof. vm_compute. reflexivity. Qed.
+
+(* ---- the engine's key IS the published key ----
+   engine_hash models PolyglotBook::hash as coded (piece lists, castling bits, en-passant test through pawn-attack bitboards of
+   the two bitboard families, side to move); the theorem holds for the state the constructor builds from ANY position with a
+   64-square board and an on-board en-passant square, with the tables re-extracted from the working tree (C18_table). *)
+From CV Require Import Engine.PolyglotProofs Engine.RepAbs Chess.Rules Base.NIter.
+From Coq Require Import List Lia.
+
+Lemma C18_table_facts :
+  (forall pc sq, 1 <= pc <= 12 -> sq < 64 -> pg_T pc sq = pg_R (code_offset pc sq)) /\
+  (forall i, i < 4 -> pg_C i = pg_R (768 + i)) /\ (forall f, f < 8 -> pg_E f = pg_R (772 + f)) /\ pg_TURN = pg_R 780.
+Proof.
+  pose proof C18_table as H. unfold table_check in H.
+  do 4 (apply andb_prop in H; destruct H as [H ?]).
+  repeat split.
+  - intros pc sq Hpc Hsq. rewrite forallb_forall in H.
+    assert (Hin : In pc [1; 2; 3; 4; 5; 6; 7; 8; 9; 10; 11; 12]) by (cbn; lia).
+    specialize (H pc Hin). rewrite forallb_forall in H. apply N.eqb_eq. apply H. apply RulesFacts.in_all_squares. exact Hsq.
+  - intros i Hi. match goal with K : forallb _ [0; 1; 2; 3] = true |- _ => rewrite forallb_forall in K; apply N.eqb_eq; apply K end. cbn; lia.
+  - intros f Hf. match goal with K : forallb _ (range 8) = true |- _ => rewrite forallb_forall in K; apply N.eqb_eq; apply K end.
+    change (range 8) with [0; 1; 2; 3; 4; 5; 6; 7]. cbn; lia.
+Qed.
+
+Theorem C18_engine_key_is_the_published_key :
+  forall (zt : zobrist) (p : position),
+    length (brd p) = 64%nat -> (forall e, ep p = Some e -> e < 64) ->
+    pg_engine_hash (rep_of_position zt p) = pg_spec_hash p.
+Proof.
+  intros zt p Hl He. destruct C18_table_facts as [HT [HC [HE HTURN]]].
+  exact (engine_hash_is_spec_hash zt pg_R pg_T pg_C pg_E pg_TURN HT HC HE HTURN p Hl He).
+Qed.
+Print Assumptions C18_engine_key_is_the_published_key.
